@@ -78,6 +78,12 @@ type Scenario struct {
 	Name string
 	Race bool // meant for the race binary as well
 	Run  func(rc *RunCtx)
+	// EnumDraw names a draw of the generation stream (Tape.Name) that the worker
+	// enumerates exhaustively for a sample of runs: the run is repeated with the
+	// same tape and that draw set to 1..N, N = number of scheduler steps of the
+	// run with the draw at 0 (used for "crash at every step of this schedule").
+	EnumDraw  string
+	EnumEvery int // enumerate for one run in EnumEvery
 }
 
 var scenarios = map[string][]*Scenario{}
@@ -116,6 +122,7 @@ type RunResult struct {
 	Tape       []int          `json:"-"`
 	Sched      []int          `json:"-"`
 	Marks      []int          `json:"-"`
+	Named      map[string]int `json:"-"`
 	Infra      string         `json:"infra,omitempty"`
 	RaceFail   bool           `json:"race_fail,omitempty"`
 }
@@ -221,6 +228,7 @@ func execRun(t *testing.T, sc *Scenario, tape *simrt.Tape, seed, run uint64, tie
 	res.Tape = tape.Rec
 	res.Sched = tape.RecS
 	res.Marks = tape.Marks
+	res.Named = tape.Named
 	res.TapeLen = len(tape.Rec) + len(tape.RecS)
 	return res
 }
